@@ -99,6 +99,14 @@ func newLeaderStub0(mode string) *leaderStub {
 		case "garbage":
 			w.WriteHeader(200)
 			w.Write([]byte("<html>not json</html>"))
+		case "http503-json":
+			w.WriteHeader(503)
+			w.Write([]byte(`{"code":503,"message":"service unavailable"}`))
+		case "http500-stale-revision-json":
+			// an error answer whose body happens to have the shape of a revision (an old one)
+			w.WriteHeader(500)
+			b, _ := json.Marshal(&revision.LeaderRevision{Revision: base + 1})
+			w.Write(b)
 		default:
 			rev := atomic.LoadUint64(&l.rev)
 			if l.peekB != nil {
@@ -142,7 +150,7 @@ func c18Cases() []c18Case {
 	for _, r := range c18Reqs {
 		for _, ld := range []bool{true, false} {
 			for _, px := range []bool{false, true} {
-				for _, m := range []string{"ok", "refused", "http400", "garbage"} {
+				for _, m := range []string{"ok", "refused", "http400", "garbage", "http503-json", "http500-stale-revision-json"} {
 					out = append(out, c18Case{r, ld, px, m})
 				}
 			}
@@ -531,7 +539,7 @@ func init() {
 	mc.Register(&mc.Property{
 		ID:     "C18",
 		Level:  "model_checking",
-		Rule:   "(a) the full configuration matrix, every cell executed: 25 request types of both APIs (etcd Range get/list/count/partitions, Txn create/update/delete/compact/invalid, Watch pure/non-pure/range-stream/cancel, Compact, LeaseGrant; native Create/Update/Delete/Compact/Get/Range/Count/ListPartition/RangeStream/Watch) x {leader, follower} x {proxy off, on} x leader {reachable, connection refused, HTTP 400, HTTP 200 with a body that is not JSON} = 400 cells, through the real etcd and native servers with the REAL revision syncer against an in-process HTTP endpoint and a recording backend; (b) every schedule (preemption-bounded, state cache) of 2 follower range reads against a leader committing 1-2 writes on the shared store, single-flight group compiled against the scheduler",
+		Rule:   "(a) the full configuration matrix, every cell executed: 25 request types of both APIs (etcd Range get/list/count/partitions, Txn create/update/delete/compact/invalid, Watch pure/non-pure/range-stream/cancel, Compact, LeaseGrant; native Create/Update/Delete/Compact/Get/Range/Count/ListPartition/RangeStream/Watch) x {leader, follower} x {proxy off, on} x leader {reachable, connection refused, HTTP 400 with text, HTTP 200 with a body that is not JSON, HTTP 503 with a JSON error body, HTTP 500 with a revision-shaped JSON body} = 600 cells, through the real etcd and native servers with the REAL revision syncer against an in-process HTTP endpoint and a recording backend; (b) every schedule (preemption-bounded, state cache) of 2 follower range reads against a leader committing 1-2 writes on the shared store, single-flight group compiled against the scheduler",
 		Assume: []string{"an HTTP round trip is one atomic step of the calling thread", "the etcd proxy is a recording stub (the real proxy needs a gRPC connection to a live leader)"},
 		Exec:   c18Exec,
 		Scenarios: func(tier string) []*mc.Scenario {
